@@ -142,6 +142,12 @@ structure Arr2 (α : Type) where
   m : Nat
   get : Nat → Nat → α
 
+/-- functional update `a[i] = v` -/
+def Arr.set {α : Type} (a : Arr α) (i : Nat) (v : α) : Arr α := ⟨a.n, fun k => if k = i then v else a.get k⟩
+/-- functional update `a[i, j] = v` -/
+def Arr2.set {α : Type} (a : Arr2 α) (i j : Nat) (v : α) : Arr2 α :=
+  ⟨a.n, a.m, fun k l => if k = i ∧ l = j then v else a.get k l⟩
+
 namespace Arr
 variable {α : Type} [RealLike α]
 /-- `np.mean(a)`: left-to-right sum divided by the length -/
